@@ -141,6 +141,9 @@ def run(tape: Tape) -> Outcome:
         g = Gen(tape, syntax=sx, size=1 + tape.draw(2), max_depth=2)
         body = g.body(__import__("sim.workload", fromlist=["Scope"]).Scope(), 1, 1 + tape.draw(2))
         tail = f"\n  {sx.bs} if n1 is defined {sx.be}  \n <{sx.vs} s1 {sx.ve}>\n  {sx.bs} endif {sx.be}\n{sx.cs} c {sx.ce}\nend\n"
+        if tape.draw(6) == 5:
+            # a template that needs a loader: every entry point without one must fail the same way
+            tail += f"{sx.bs} include 'nope' ignore missing {sx.be}"
         sources.append(body + tail)
     dseeds = [tape.draw(1 << 30, "d") for _ in range(1 + tape.draw(2))]
     nops = 4 + tape.draw(17)
@@ -167,12 +170,13 @@ def run(tape: Tape) -> Outcome:
     datas = [make_data_seed(s) for s in dseeds]
     refs: dict = {}
 
-    def reference(cfg: dict, src: str, di: int, name=None):
-        key = (_key(cfg), src, di, name)
+    def reference(cfg: dict, src: str, di: int, name=None, has_loader=False):
+        key = (_key(cfg), src, di, name, has_loader)
         if key not in refs:
             clear_process_caches()
             if name is None:
-                env = jinja2.Environment(**cfg)
+                # Template(...) has no loader; from_string runs on environments that have the shared one
+                env = jinja2.Environment(loader=jinja2.DictLoader({f"t{ci}": s_ for ci, s_ in enumerate(sources)}) if has_loader else None, **cfg)
                 refs[key] = _render(lambda: env.from_string(src).render(datas[di]))
             else:
                 env = jinja2.Environment(loader=jinja2.DictLoader({name: src}), **cfg)
@@ -226,7 +230,7 @@ def run(tape: Tape) -> Outcome:
                     get_env(0)
                 e, cfg, sci = envs[op[1] % len(envs)]
                 src = sources[sci]
-                expect[i] = (cfg, src, op[2]) if op[0] == "from_string" else (cfg, src, op[2], f"t{sci}")
+                expect[i] = (cfg, src, op[2], None, True) if op[0] == "from_string" else (cfg, src, op[2], f"t{sci}")
                 if op[0] == "from_string":
                     results[i] = _render(lambda: e.from_string(src).render(datas[op[2]]))
                 else:
@@ -311,7 +315,7 @@ def run(tape: Tape) -> Outcome:
             if ck in used and used[-1] != ck:
                 reuse = True
             used.append(ck)
-            want = reference(cfg, src, di, nm[0] if nm else None)
+            want = reference(cfg, src, di, nm[0] if nm else None, bool(nm[1]) if len(nm) > 1 else False)
             if results[i] != want:
                 out.violate(("render-differs", op[0], results[i][0], want[0], "threads%d" % nt), op=i, got=results[i], expected=want)
                 return out
